@@ -47,7 +47,7 @@ def sc_fa_bag(B, kind, labels, comp, policy, isolated):
     return o
 
 
-def sc_iv_bag(B, comp, policy, isolated, update_sigma):
+def sc_iv_bag(B, comp, policy, isolated, update_sigma, iterations=1):
     iv = B.mod("ivector")
     C, D, t = 2, 1, 1
     from .c10 import iv_stats
@@ -57,11 +57,12 @@ def sc_iv_bag(B, comp, policy, isolated, update_sigma):
     ubm, UP = make_gmm(B, C, D, "scalar", pre="u")
 
     def train(data):
-        m = iv.IVectorMachine(ubm=ubm, dim_t=t, max_iterations=1, update_sigma=update_sigma)
+        m = iv.IVectorMachine(ubm=ubm, dim_t=t, max_iterations=iterations, update_sigma=update_sigma)
         B.np.random.seed(0)
         m.fit(data)
         return m
 
+    snap = [(B.copy(s.n), B.copy(s.sum_px), B.copy(s.sum_pxx)) for s in stats]
     ref = train(list(stats))
     parts, pos = [], 0
     for k in comp:
@@ -72,6 +73,10 @@ def sc_iv_bag(B, comp, policy, isolated, update_sigma):
     o = Outcome()
     o.same("T", m.T, ref.T)
     o.same("sigma", m.sigma, ref.sigma)
+    # the statistics in the bag are the caller's: training leaves them as they were
+    for j, s in enumerate(stats):
+        o.same("statistics-unchanged-%d/n" % j, s.n, snap[j][0])
+        o.same("statistics-unchanged-%d/sum_px" % j, s.sum_px, snap[j][1])
     return o
 
 
@@ -126,6 +131,9 @@ def job_fa(P, kind, lname, comp):
 def job_iv(P, comp):
     for (pol, iso), us in zip(EXECS, (True, False)):
         P.run("ivector-bag-%s-%s" % (pol, "iso" if iso else "shared"), sc_iv_bag, dict(comp=comp, policy=pol, isolated=iso, update_sigma=us), validate=0)
+    if len(comp) >= 2 and sum(comp) <= 3:
+        # two EM iterations in shared memory: whatever the first iteration did to shared objects shows
+        P.run("ivector-bag-2-iterations", sc_iv_bag, dict(comp=comp, policy="fifo", isolated=False, update_sigma=False, iterations=2), validate=0)
 
 
 def job_red(P):
